@@ -23,6 +23,9 @@ def run(ctx):
     # walks confined to pushes and deletes of a tagged closure (1 repository, 1 tag, 2 blobs, image / index /
     # index-with-opaquely-declared-child / image-with-subject): dense in "delete something a tag reaches"
     scen += rc.gen_scenarios(ctx, 40 if quick else 2000, cfg='OciRegistryGenImm.cfg')
+    # two repositories sharing blobs through MountBlob: a delete in one repository must leave what a tag of the
+    # other one reaches (content included) as it was
+    scen += rc.gen_scenarios(ctx, 40 if quick else 1000, cfg='OciRegistryGenImmMount.cfg')
     # one history per (state, operation) pair of the closure universe: every "delete something a tag reaches"
     scen += rc.cover_scenarios(ctx, 'OciRegistryCover_imm.cfg', sample=1800 if quick else None)
     # the same for the universe with the index that names unreadable bytes as an image manifest
